@@ -223,6 +223,17 @@ Definition prove_knowledge (pp : pparams) (tpk : pkey) (us : secret) (S : seq na
            (eps delta mu : F) (gam : seq F) : sigpok :=
   pok_of_sig pp tpk (sh us) (combine_witnesses S ws) (smsg us) eps delta mu gam.
 
+(* Party identifiers versus evaluation points.  TPS.Init gives parties[i] the RANK i+1 and the key generation deals,
+   combines and aggregates at ranks; the prover is handed party IDENTIFIERS.  Variant flag fix_rank: false = the pinned
+   tree, where ProveKnowledgeOfSignature used int64(signer), the identifier, as evaluation point; true = the repaired
+   code, which looks up the rank recorded by Prover.Init (parties2EvalPoints[party] = i+1). *)
+Definition rank_of (parties : seq nat) (id : nat) : nat := (index id parties).+1.
+Definition eval_points (fix_rank : bool) (parties signer_ids : seq nat) : seq nat :=
+  if fix_rank then [seq rank_of parties id | id <- signer_ids] else signer_ids.
+Definition prove_knowledge_ids (fix_rank : bool) (pp : pparams) (tpk : pkey) (us : secret) (parties signer_ids : seq nat)
+           (ws : seq G1) (eps delta mu : F) (gam : seq F) : sigpok :=
+  prove_knowledge pp tpk us (eval_points fix_rank parties signer_ids) ws eps delta mu gam.
+
 (* localAggregatePublicKeys / localAggregateECPoints over the evaluation points T (party k is pks[k-1]) *)
 Definition agg_points (V : lmodType F) (T : seq nat) (pt : nat -> V) : V :=
   foldr (fun k acc => lagr (pts T) k%:R *: pt k + acc) 0 T.
@@ -622,6 +633,35 @@ have -> : ws = [seq unblind_point (apply_sk pp bl.1 (sk_at (poly_x deals) (poly_
   by apply: eq_map => k; rewrite dkg_sk_poly.
 apply: pok_verifies => //; first exact: size_poly_x.
 by move=> j; exact: size_poly_y.
+Qed.
+
+(* arbitrary party identifiers: the witness of party id is made with the share of its rank; combined at ranks
+   (repaired variant) the proof verifies for every list of at least t distinct parties of the party list *)
+Lemma ranks_ok (parties sids : seq nat) :
+  uniq parties -> size parties = N -> uniq sids -> {subset sids <= parties} -> (t <= size sids)%N ->
+  signers_ok [seq rank_of parties id | id <- sids].
+Proof.
+move=> up sp us sub ts; apply/and3P; split; last by rewrite size_map.
+  rewrite map_inj_in_uniq // => x y /sub xin /sub yin [eq].
+  by rewrite -(nth_index 0%N xin) -(nth_index 0%N yin) eq.
+by apply/allP => k /mapP [id /sub idin ->]; rewrite /rank_of /= -sp index_mem.
+Qed.
+
+Theorem pok_verifies_ids (pp : pparams) deals m rc z r alpha beta gamma parties sids T eps delta mu gam :
+  size m = (pn pp).-1 -> (0 < pn pp)%N -> deals_ok deals ->
+  uniq parties -> size parties = N -> uniq sids -> {subset sids <= parties} -> (t <= size sids)%N -> signers_ok T ->
+  let n := pn pp in
+  let bl := blind pp m rc z r alpha beta gamma in
+  let ws := [seq unblind_point (apply_sk pp bl.1 (dkg_sk n deals (rank_of parties id))) (sz bl.2) | id <- sids] in
+  let tpk := agg_pk n (dkg_pks pp n N deals) T in
+  sh bl.2 != 0 -> eps != 0 ->
+  verify_pok pp tpk (prove_knowledge_ids RO2 true pp tpk bl.2 parties sids ws eps delta mu gam) = true.
+Proof.
+move=> sm npos okd up sp us sub ts okT n bl ws tpk hn0 en0.
+rewrite /prove_knowledge_ids /eval_points /=.
+have -> : ws = [seq unblind_point (apply_sk pp bl.1 (dkg_sk n deals k)) (sz bl.2) | k <- [seq rank_of parties id | id <- sids]].
+  by rewrite -map_comp.
+by apply: pok_verifies_dkg => //; exact: ranks_ok.
 Qed.
 
 Theorem partial_unblinds_signed (pp : pparams) deals m rc z r alpha beta gamma i :
